@@ -3,6 +3,8 @@ package c17
 import (
 	"bytes"
 	"fmt"
+	"os"
+	"path/filepath"
 	"testing"
 
 	"github.com/fiorix/go-diameter/v4/diam/dict"
@@ -18,6 +20,13 @@ import (
 type SetCase struct {
 	Files []gen.DictFile `json:"files"`
 	Order []int          `json:"order"`
+	// ViaFile: every document is written to a file of its own and loaded with Parser.LoadFile
+	// instead of Parser.Load.
+	ViaFile bool `json:"via_file,omitempty"`
+	// Reload: after the order, its first document is loaded once more (an application that
+	// re-reads a dictionary; with ViaFile: the same path, spelled dir/./name): it is then the most
+	// recently loaded again.
+	Reload bool `json:"reload,omitempty"`
 }
 
 // Small pools, so that documents overlap in applications, codes, names and
@@ -132,6 +141,8 @@ func genSet(t *rapid.T) SetCase {
 		c.Files = append(c.Files, file)
 	}
 	c.Order = rapid.Permutation(seq(nf)).Draw(t, "order")
+	c.ViaFile = rapid.IntRange(0, 2).Draw(t, "via-file") == 0
+	c.Reload = rapid.IntRange(0, 2).Draw(t, "reload") == 0
 	return c
 }
 
@@ -240,7 +251,23 @@ func runSet(c SetCase) *ev.Failure {
 		docs[i] = f.XML()
 	}
 	qs := setGrid(docs)
+	var dir string
+	if c.ViaFile {
+		var err error
+		if dir, err = os.MkdirTemp(os.Getenv("VERIF_WORK"), "c17-docs-"); err != nil {
+			return ev.Failf("harness-tempdir", "%v", err)
+		}
+		defer os.RemoveAll(dir)
+		for i, d := range docs {
+			if err := os.WriteFile(filepath.Join(dir, fmt.Sprintf("doc%d.xml", i)), []byte(d), 0o644); err != nil {
+				return ev.Failf("harness-tempdir", "%v", err)
+			}
+		}
+	}
 	for _, order := range c.orders() {
+		if c.Reload && len(order) > 1 {
+			order = append(append([]int{}, order...), order[0])
+		}
 		p, err := dict.NewParser()
 		if err != nil {
 			return ev.Failf("harness-parser", "%v", err)
@@ -251,7 +278,16 @@ func runSet(c SetCase) *ev.Failure {
 		for step, fi := range order {
 			where := fmt.Sprintf("order %v, after Load #%d (document %d)", order, step+1, fi)
 			issues := m.Load(docs[fi])
-			lerr := p.Load(bytes.NewReader([]byte(docs[fi])))
+			var lerr error
+			if c.ViaFile {
+				path := filepath.Join(dir, fmt.Sprintf("doc%d.xml", fi))
+				if step >= len(c.Files) { // the reload: the same file under another spelling
+					path = dir + string(filepath.Separator) + "." + string(filepath.Separator) + fmt.Sprintf("doc%d.xml", fi)
+				}
+				lerr = p.LoadFile(path)
+			} else {
+				lerr = p.Load(bytes.NewReader([]byte(docs[fi])))
+			}
 			if lerr != nil {
 				if len(issues) == 0 {
 					return ev.Failf("load:valid-document-refused", "%s: Load returned %v for a document with known type names and no command defined twice", where, lerr)
@@ -280,6 +316,12 @@ func runSet(c SetCase) *ev.Failure {
 // setFeatures classifies a set from the model alone.
 func setFeatures(c SetCase) (nontrivial bool, classes []string) {
 	classes = []string{fmt.Sprintf("files:%d", len(c.Files))}
+	if c.ViaFile {
+		classes = append(classes, "loaded-with-LoadFile")
+	}
+	if c.Reload && len(c.Files) > 1 {
+		classes = append(classes, "first-document-loaded-again-at-the-end")
+	}
 	m := refdict.New()
 	issueKinds := map[string]bool{}
 	for _, i := range c.orders()[0] {
@@ -357,7 +399,7 @@ func setFeatures(c SetCase) (nontrivial bool, classes []string) {
 var setProp = ev.Register(&ev.Prop[SetCase]{
 	ID:   "C17",
 	Name: "sets",
-	Rule: "generated sets of 1..3 XML documents over small pools of application ids (0, 1, 4, 16777238, 16777251, 7, 1000), codes, names, vendors and command codes, some with an undeclarable type name or a command defined twice; each set is loaded in EVERY order into fresh parsers; after each Load the full lookup grid of the set (as in the embedded test) is compared with the model and every query that resolved before must still resolve (also across refused Loads); non-trivial = the set redefines an (application, code, vendor) across documents, or defines a code for >= 2 vendors at one level, or at >= 2 levels of a parent chain; distinct by hash of the documents + drawn order",
+	Rule: "(1 in 3 through files and Parser.LoadFile; 1 in 3 with the first document loaded once more at the end, under another spelling of its path) generated sets of 1..3 XML documents over small pools of application ids (0, 1, 4, 16777238, 16777251, 7, 1000), codes, names, vendors and command codes, some with an undeclarable type name or a command defined twice; each set is loaded in EVERY order into fresh parsers; after each Load the full lookup grid of the set (as in the embedded test) is compared with the model and every query that resolved before must still resolve (also across refused Loads); non-trivial = the set redefines an (application, code, vendor) across documents, or defines a code for >= 2 vendors at one level, or at >= 2 levels of a parent chain; distinct by hash of the documents + drawn order",
 	Gen:  genSet,
 	Run:  runSet,
 	Classify: func(c SetCase) (bool, []string) {
